@@ -18,11 +18,12 @@ GM(a, b, c, n) == LET S == (IF a = 0 THEN {} ELSE {"a"}) \cup (IF b = 0 THEN {} 
                               \cup (IF n = 0 THEN {} ELSE {"n"})
                   IN [v \in S |-> CASE v = "a" -> a [] v = "b" -> b [] v = "c" -> c [] OTHER -> n]
 GBad == 9
-GMaps == {GM(1, 0, 0, 0), GM(0, 2, 0, 0), GM(1, 1, 0, 0), GM(2, 2, 2, 0), GM(1, 0, 0, 1), GM(1, 9, 0, 0), GM(2, 1, 0, 1),
-          GM(0, 0, 0, 1), GM(9, 0, 1, 0), GM(2, 1, 9, 0)}
-GMapsSmall == {GM(1, 0, 0, 0), GM(2, 2, 0, 0), GM(1, 0, 0, 1), GM(2, 9, 1, 0), GM(0, 1, 2, 1), GM(0, 0, 1, 0)}
-GMapsQ == {GM(1, 0, 0, 0), GM(2, 2, 0, 0), GM(1, 0, 0, 1), GM(2, 9, 1, 0)}
-GVals == {5}
+(* the values of one Var differ from map to map, so that WHICH binding is visible can be told from the value *)
+GMaps == {GM(1, 0, 0, 0), GM(0, 2, 0, 0), GM(2, 1, 0, 0), GM(3, 3, 2, 0), GM(4, 0, 0, 1), GM(5, 9, 0, 0), GM(6, 4, 0, 1),
+          GM(0, 0, 0, 1), GM(9, 0, 1, 0), GM(8, 5, 9, 0)}
+GMapsSmall == {GM(1, 0, 0, 0), GM(2, 2, 0, 0), GM(3, 0, 0, 1), GM(4, 9, 1, 0), GM(0, 1, 2, 1), GM(0, 0, 3, 0)}
+GMapsQ == {GM(1, 0, 0, 0), GM(2, 2, 0, 0), GM(3, 0, 0, 1), GM(4, 9, 1, 0)}
+GVals == {7}
 GOrders == {<<"a", "b", "c", "n">>}
 AllKinds == {"future", "boundfn", "pmap", "raw"}
 T1 == {1}
